@@ -39,6 +39,8 @@ def apply_edit(root, m):
     src = src.replace(m["old"], m["new"]) if want == "all" or want == cnt else src
     with open(path, "w", encoding="utf-8") as f:
         f.write(src)
+    if not path.endswith(".py"):
+        return None
     try:
         import warnings
         with warnings.catch_warnings():
